@@ -5,6 +5,7 @@ import Amgcl.Generated.ParamsTableData
 handlers for C14 (`harness/h_params.cpp`): every answer is computed from the table REGENERATED from /repo
 (`Amgcl.Generated.paramTables` / `enumTables`) with the property-tree semantics of `Amgcl/Model/PTree.lean`.
 
+* `params_compiles S`          → `yes` | `no`                       are import and export well-typed (`ParamTable.wellTyped`)?
 * `params_fields S`            → `n name:kind …` (sorted)           the data members the translator found
 * `params_roundtrip S f v`     → `f=v` | `f=default` | `not-exported` | `ill-typed` | `invalid` (enum member, unknown name)
                                  construct from `{f: v}`, export with `get`, read `f` back
@@ -48,6 +49,10 @@ def three : P (String × String × String) := do let a ← tok; let b ← tok; l
 
 def handle (op : String) (args : List String) : Option String :=
   match op with
+  | "params_compiles" => withArgs tok args fun s =>
+      match findTable s with
+      | none => badInput
+      | some t => if t.wellTyped then "yes" else "no"
   | "params_fields" => withArgs tok args fun s =>
       match findTable s with
       | none => badInput
